@@ -97,6 +97,26 @@ func Styling(t *rapid.T, num NumFn, col func(*rapid.T, string) ops.ColorV, label
 	}
 }
 
+// Again returns, one time in six, a styling op that writes once more what prev just wrote: the
+// identical op, or the same value through the other addressing form so that it lands on the
+// register that already holds it (an incrementing write after a plain one at ADJ 0, a plain one at
+// ADJ 1 after an incrementing one). The value is redundant, the selector side effect is not.
+func Again(t *rapid.T, prev ops.Op, label string) (ops.Op, bool) {
+	if !prev.K.IsStyling() || prev.K == ops.StartPath || rapid.IntRange(0, 5).Draw(t, label+".again") != 0 {
+		return ops.Op{}, false
+	}
+	o := prev
+	if (o.K == ops.SetCReg || o.K == ops.SetNReg) && rapid.Bool().Draw(t, label+".otherform") {
+		switch {
+		case !o.Incr && o.Adj == 0:
+			o.Incr = true
+		case o.Incr:
+			o.Incr, o.Adj = false, 1
+		}
+	}
+	return o, true
+}
+
 // Program draws a protocol-respecting call sequence (without the Reset):
 // (styling* (StartPath drawing* ClosePathEndPath))*.
 func Program(t *rapid.T, cfg ProgCfg) []ops.Op {
@@ -126,6 +146,9 @@ func Program(t *rapid.T, cfg ProgCfg) []ops.Op {
 			ns := rapid.IntRange(0, 5).Draw(t, "nstyling")
 			for i := 0; i < ns; i++ {
 				out = append(out, Styling(t, cfg.Num, cfg.Col, "sty"))
+				if o, ok := Again(t, out[len(out)-1], "sty"); ok {
+					out = append(out, o)
+				}
 			}
 		}
 		if !cfg.AlwaysPath && rapid.IntRange(0, 5).Draw(t, "nopath") == 0 {
